@@ -920,9 +920,10 @@ def kernel32_GetModuleFileName(jitter, funcname, set_str):
 
     if p is None:
         l = 0
-    elif args.nsize < len(p):
-        p = p[:args.nsize]
-        l = len(p)
+    elif args.nsize <= len(p):
+        # Truncated: nsize characters are written, terminating NUL included
+        p = p[:max(args.nsize - 1, 0)]
+        l = args.nsize
     else:
         l = len(p)
 
